@@ -47,6 +47,10 @@ static inline void fv_dtor(struct fixed_vector *self)
     self->data_ = 0;
 }
 
+/* input recording for the replay: active only in the function being enforced (g_in is havocked by the
+ * harness, so the assumption makes the trace show the pre-state values) */
+#define FV_REC(fn, sz, cap, k, n) (!NITRO_ENF_##fn || (g_in[0] == (size_t)(sz) && g_in[1] == (size_t)(cap) && g_in[2] == (size_t)(k) && g_in[3] == (size_t)(n)))
+
 /* ---- representation invariant ---- */
 #define FV_SHAPE(v) ((v)->capacity_ <= FV_MAXCAP && (v)->size_ <= (v)->capacity_)
 /* live container: owns one array of exactly capacity_ elements */
@@ -78,6 +82,7 @@ static inline void fv_dtor(struct fixed_vector *self)
 /* ======================= construction ======================= */
 void fv_ctor_cap(struct fixed_vector *self, size_t capacity)
 __CPROVER_requires(nitro_exc == 0 && __CPROVER_is_fresh(self, sizeof(*self)) && capacity <= FV_MAXCAP)
+__CPROVER_requires(FV_REC(fv_ctor_cap, 0, capacity, 0, 0))
 __CPROVER_assigns(*self, g_live_arrays)
 __CPROVER_ensures(nitro_exc == 0)
 __CPROVER_ensures(self->size_ == 0 && self->capacity_ == capacity)                       /*@ empty_with_given_capacity */
@@ -94,6 +99,7 @@ __CPROVER_ensures(g_live_arrays == __CPROVER_old(g_live_arrays) + 1);
 void fv_ctor_iter_il(struct fixed_vector *self, size_t capacity, const struct nitro_ilist *array)
 __CPROVER_requires(nitro_exc == 0 && __CPROVER_is_fresh(self, sizeof(*self)) && capacity <= FV_MAXCAP)
 __CPROVER_requires(__CPROVER_is_fresh(array, sizeof(*array)) && array->n <= FV_MAXCAP && __CPROVER_is_fresh(array->p, (array->n == 0 ? 1 : array->n) * sizeof(elem)))
+__CPROVER_requires(FV_REC(fv_ctor_iter_il, 0, capacity, 0, array->n))
 __CPROVER_assigns(*self, g_live_arrays, nitro_exc)
 __CPROVER_ensures((array->n > capacity) ==> nitro_exc != 0)                               /*@ range_that_does_not_fit_raises */
 __CPROVER_ensures(nitro_exc == EXC_NITRO ==> array->n > capacity)
@@ -106,6 +112,7 @@ __CPROVER_ensures(g_live_arrays == __CPROVER_old(g_live_arrays) + (nitro_exc == 
 void fv_ctor_iter_fv(struct fixed_vector *self, size_t capacity, const struct fixed_vector *array)
 __CPROVER_requires(nitro_exc == 0 && __CPROVER_is_fresh(self, sizeof(*self)) && capacity <= FV_MAXCAP)
 __CPROVER_requires(__CPROVER_is_fresh(array, sizeof(*array)) && FV_PRE_LIVE(array))
+__CPROVER_requires(FV_REC(fv_ctor_iter_fv, array->size_, capacity, array->capacity_, array->size_))
 __CPROVER_assigns(*self, g_live_arrays, nitro_exc)
 __CPROVER_ensures((array->size_ > capacity) ==> nitro_exc != 0)                           /*@ range_that_does_not_fit_raises */
 __CPROVER_ensures(nitro_exc == EXC_NITRO ==> array->size_ > capacity)
@@ -118,6 +125,7 @@ __CPROVER_ensures(g_live_arrays == __CPROVER_old(g_live_arrays) + (nitro_exc == 
 void fv_ctor_ilist(struct fixed_vector *self, const struct nitro_ilist *list)
 __CPROVER_requires(nitro_exc == 0 && __CPROVER_is_fresh(self, sizeof(*self)))
 __CPROVER_requires(__CPROVER_is_fresh(list, sizeof(*list)) && list->n <= FV_MAXCAP && __CPROVER_is_fresh(list->p, (list->n == 0 ? 1 : list->n) * sizeof(elem)))
+__CPROVER_requires(FV_REC(fv_ctor_ilist, 0, list->n, 0, list->n))
 __CPROVER_assigns(*self, g_live_arrays, nitro_exc)
 __CPROVER_ensures(nitro_exc == 0 || nitro_exc == EXC_ELEM)                                /*@ list_always_fits */
 __CPROVER_ensures(nitro_exc == 0 ==> (self->size_ == list->n && self->capacity_ == list->n))
@@ -129,6 +137,7 @@ __CPROVER_ensures(g_live_arrays == __CPROVER_old(g_live_arrays) + (nitro_exc == 
 void fv_ctor_copy(struct fixed_vector *self, const struct fixed_vector *v)
 __CPROVER_requires(nitro_exc == 0 && __CPROVER_is_fresh(self, sizeof(*self)))
 __CPROVER_requires(__CPROVER_is_fresh(v, sizeof(*v)) && FV_PRE_LIVE(v))
+__CPROVER_requires(FV_REC(fv_ctor_copy, v->size_, v->capacity_, 0, 0))
 __CPROVER_assigns(*self, g_live_arrays, nitro_exc)
 __CPROVER_ensures(nitro_exc == 0 || nitro_exc == EXC_ELEM)                                /*@ copy_never_overflows */
 __CPROVER_ensures(nitro_exc == 0 ==> (self->size_ == v->size_ && self->capacity_ == v->capacity_)) /*@ equal_size_and_capacity */
@@ -140,6 +149,7 @@ __CPROVER_ensures(g_live_arrays == __CPROVER_old(g_live_arrays) + (nitro_exc == 
 void fv_ctor_move(struct fixed_vector *self, struct fixed_vector *v)
 __CPROVER_requires(nitro_exc == 0 && __CPROVER_is_fresh(self, sizeof(*self)))
 __CPROVER_requires(__CPROVER_is_fresh(v, sizeof(*v)) && FV_PRE_ANY(v))
+__CPROVER_requires(FV_REC(fv_ctor_move, v->size_, v->capacity_, 0, 0))
 __CPROVER_assigns(*self, *v)
 __CPROVER_ensures(nitro_exc == 0)
 __CPROVER_ensures(self->size_ == __CPROVER_old(v->size_) && self->capacity_ == __CPROVER_old(v->capacity_)) /*@ size_transferred */
@@ -150,6 +160,7 @@ __CPROVER_ensures(g_live_arrays == __CPROVER_old(g_live_arrays));
 struct fixed_vector *fv_assign_move(struct fixed_vector *self, struct fixed_vector *v)
 __CPROVER_requires(nitro_exc == 0 && __CPROVER_is_fresh(self, sizeof(*self)) && FV_PRE_ANY(self))
 __CPROVER_requires(__CPROVER_is_fresh(v, sizeof(*v)) && FV_PRE_ANY(v))
+__CPROVER_requires(FV_REC(fv_assign_move, v->size_, v->capacity_, self->size_, self->capacity_))
 __CPROVER_assigns(*self, *v, g_live_arrays; self->data_ != 0: __CPROVER_object_whole(self->data_))
 __CPROVER_frees(self->data_)
 __CPROVER_ensures(nitro_exc == 0 && __CPROVER_return_value == self)
@@ -161,6 +172,7 @@ __CPROVER_ensures(g_live_arrays == __CPROVER_old(g_live_arrays) - (__CPROVER_old
 struct fixed_vector *fv_assign_copy(struct fixed_vector *self, const struct fixed_vector *v)
 __CPROVER_requires(nitro_exc == 0 && __CPROVER_is_fresh(self, sizeof(*self)) && FV_PRE_ANY(self))
 __CPROVER_requires(__CPROVER_is_fresh(v, sizeof(*v)) && FV_PRE_LIVE(v))
+__CPROVER_requires(FV_REC(fv_assign_copy, v->size_, v->capacity_, self->size_, self->capacity_))
 __CPROVER_assigns(*self, g_live_arrays, nitro_exc; self->data_ != 0: __CPROVER_object_whole(self->data_))
 __CPROVER_frees(self->data_)
 __CPROVER_ensures(nitro_exc == 0 || nitro_exc == EXC_ELEM)
@@ -174,6 +186,7 @@ __CPROVER_ensures(nitro_exc != 0 ==> (FV_SAME_HEADER(self) && g_live_arrays == _
 struct fixed_vector *fv_assign_list(struct fixed_vector *self, const struct nitro_ilist *l)
 __CPROVER_requires(nitro_exc == 0 && __CPROVER_is_fresh(self, sizeof(*self)) && FV_PRE_ANY(self))
 __CPROVER_requires(__CPROVER_is_fresh(l, sizeof(*l)) && l->n <= FV_MAXCAP && __CPROVER_is_fresh(l->p, (l->n == 0 ? 1 : l->n) * sizeof(elem)))
+__CPROVER_requires(FV_REC(fv_assign_list, self->size_, self->capacity_, 0, l->n))
 __CPROVER_assigns(*self, g_live_arrays, nitro_exc; self->data_ != 0: __CPROVER_object_whole(self->data_))
 __CPROVER_frees(self->data_)
 __CPROVER_ensures(nitro_exc == 0 || nitro_exc == EXC_ELEM)
@@ -203,6 +216,7 @@ __CPROVER_ensures(__CPROVER_return_value == self->capacity_ && nitro_exc == 0);
 #define FV_UNCHECKED(name, ST, RT, extra, idx)                                                   \
 RT *name(ST *self extra)                                                                         \
 __CPROVER_requires(nitro_exc == 0 && __CPROVER_is_fresh(self, sizeof(*self)) && FV_PRE_LIVE(self) && (idx) < self->size_) \
+__CPROVER_requires(FV_REC(name, self->size_, self->capacity_, idx, 0)) \
 __CPROVER_assigns()                                                                              \
 __CPROVER_ensures(__CPROVER_return_value == self->data_ + (idx) && nitro_exc == 0)
 #define COMMA_KEY , size_t key
@@ -217,6 +231,7 @@ FV_UNCHECKED(fv_back_c, const struct fixed_vector, const elem, , self->size_ - 1
 #define FV_AT(name, ST, RT)                                                                      \
 RT *name(ST *self, size_t key)                                                                   \
 __CPROVER_requires(nitro_exc == 0 && __CPROVER_is_fresh(self, sizeof(*self)) && FV_PRE_ANY(self)) \
+__CPROVER_requires(FV_REC(name, self->size_, self->capacity_, key, 0)) \
 __CPROVER_assigns(nitro_exc)                                                                     \
 __CPROVER_ensures((key >= self->size_) == (nitro_exc != 0))            /*@ raises_iff_key_ge_size */ \
 __CPROVER_ensures(nitro_exc == 0 || nitro_exc == EXC_NITRO)                                      \
@@ -226,13 +241,16 @@ FV_AT(fv_at_c, const struct fixed_vector, const elem);
 
 elem *fv_std_get(size_t I, struct fixed_vector *c)
 __CPROVER_requires(nitro_exc == 0 && __CPROVER_is_fresh(c, sizeof(*c)) && FV_PRE_ANY(c))
+__CPROVER_requires(FV_REC(fv_std_get, c->size_, c->capacity_, I, 0))
 __CPROVER_assigns(nitro_exc)
 __CPROVER_ensures((I >= c->size_) == (nitro_exc != 0))                  /*@ raises_iff_index_ge_size */
+__CPROVER_ensures(nitro_exc == 0 || nitro_exc == EXC_NITRO)              /*@ raises_the_library_exception_not_terminate */
 __CPROVER_ensures(nitro_exc == 0 ==> __CPROVER_return_value == c->data_ + I);
 
 #define FV_ITER(name, ST, RT, off)                                                               \
 RT *name(ST *self)                                                                               \
 __CPROVER_requires(nitro_exc == 0 && __CPROVER_is_fresh(self, sizeof(*self)) && FV_PRE_LIVE(self)) \
+__CPROVER_requires(FV_REC(name, self->size_, self->capacity_, 0, 0)) \
 __CPROVER_assigns()                                                                              \
 __CPROVER_ensures(__CPROVER_return_value == self->data_ + (off) && nitro_exc == 0)   /*@ inside_live_range */
 FV_ITER(fv_begin, struct fixed_vector, elem, 0);
@@ -248,6 +266,7 @@ FV_ITER(fv_data_c, const struct fixed_vector, const elem, 0);
 #define FV_RITER(name, ST, off)                                                                  \
 struct nitro_rev name(ST *self)                                                                  \
 __CPROVER_requires(nitro_exc == 0 && __CPROVER_is_fresh(self, sizeof(*self)) && FV_PRE_LIVE(self)) \
+__CPROVER_requires(FV_REC(name, self->size_, self->capacity_, 0, 0)) \
 __CPROVER_assigns()                                                                              \
 __CPROVER_ensures(__CPROVER_return_value.base == self->data_ + (off) && nitro_exc == 0)  /*@ reverse_range_bounds */
 FV_RITER(fv_rbegin, struct fixed_vector, self->size_);
@@ -274,6 +293,7 @@ __CPROVER_ensures(nitro_exc == 0 ==> *a == b);
 #define FV_APPEND(name, argname)                                                                 \
 size_t name(struct fixed_vector *self, elem argname)                                             \
 __CPROVER_requires(nitro_exc == 0 && __CPROVER_is_fresh(self, sizeof(*self)) && FV_PRE_STORE(self)) \
+__CPROVER_requires(FV_REC(name, self->size_, self->capacity_, 0, 0)) \
 __CPROVER_assigns(nitro_exc, self->size_, __CPROVER_object_whole(self->data_))                   \
 __CPROVER_ensures((__CPROVER_old(self->size_) >= self->capacity_) == (nitro_exc == EXC_NITRO))  /*@ append_when_full_raises */ \
 __CPROVER_ensures(nitro_exc == 0 || nitro_exc == EXC_NITRO || nitro_exc == EXC_ELEM)             \
@@ -291,6 +311,7 @@ FV_APPEND(fv_push_back, value);
 /* C07: positional emplace inserts before the position */
 void fv_emplace(struct fixed_vector *self, elem *pos, elem args)
 __CPROVER_requires(nitro_exc == 0 && __CPROVER_is_fresh(self, sizeof(*self)) && FV_PRE_STORE(self) && FV_POS(fv_emplace, self, pos))
+__CPROVER_requires(FV_REC(fv_emplace, self->size_, self->capacity_, FV_K(self, pos), 0))
 __CPROVER_assigns(nitro_exc, self->size_, __CPROVER_object_whole(self->data_))
 __CPROVER_ensures((FV_K(self, pos) > __CPROVER_old(self->size_) || __CPROVER_old(self->size_) >= self->capacity_) == (nitro_exc == EXC_NITRO)) /*@ raises_iff_bad_position_or_full */
 __CPROVER_ensures(nitro_exc == 0 || nitro_exc == EXC_NITRO || nitro_exc == EXC_ELEM)
@@ -306,6 +327,7 @@ __CPROVER_ensures(self->capacity_ == __CPROVER_old(self->capacity_) && self->dat
 void fv_insert_range(struct fixed_vector *self, elem *pos, const elem *start, const elem *end)
 __CPROVER_requires(nitro_exc == 0 && __CPROVER_is_fresh(self, sizeof(*self)) && FV_PRE_STORE(self) && FV_POS(fv_insert_range, self, pos))
 __CPROVER_requires(FV_RANGE_PRE(fv_insert_range, start, end))
+__CPROVER_requires(FV_REC(fv_insert_range, self->size_, self->capacity_, FV_K(self, pos), FV_N(start, end)))
 __CPROVER_assigns(nitro_exc, self->size_, __CPROVER_object_whole(self->data_))
 __CPROVER_ensures((FV_K(self, pos) > __CPROVER_old(self->size_) || (FV_K(self, pos) <= __CPROVER_old(self->size_) && FV_N(start, end) > self->capacity_ - FV_K(self, pos))) ==> nitro_exc != 0) /*@ range_that_does_not_fit_raises */
 __CPROVER_ensures(nitro_exc == EXC_NITRO ==> (FV_K(self, pos) > __CPROVER_old(self->size_) || FV_N(start, end) > self->capacity_ - FV_K(self, pos)))
@@ -330,6 +352,7 @@ __CPROVER_ensures(self->capacity_ == __CPROVER_old(self->capacity_) && self->dat
 void fv_insert_ilist(struct fixed_vector *self, elem *pos, const struct nitro_ilist *list)
 __CPROVER_requires(nitro_exc == 0 && __CPROVER_is_fresh(self, sizeof(*self)) && FV_PRE_STORE(self) && FV_POS(fv_insert_ilist, self, pos))
 __CPROVER_requires(__CPROVER_is_fresh(list, sizeof(*list)) && list->n <= FV_MAXCAP && __CPROVER_is_fresh(list->p, (list->n == 0 ? 1 : list->n) * sizeof(elem)))
+__CPROVER_requires(FV_REC(fv_insert_ilist, self->size_, self->capacity_, FV_K(self, pos), list->n))
 __CPROVER_assigns(nitro_exc, self->size_, __CPROVER_object_whole(self->data_))
 __CPROVER_ensures((FV_K(self, pos) > __CPROVER_old(self->size_) || (FV_K(self, pos) <= __CPROVER_old(self->size_) && list->n > self->capacity_ - FV_K(self, pos))) ==> nitro_exc != 0) /*@ range_that_does_not_fit_raises */
 __CPROVER_ensures(self->size_ <= self->capacity_)
@@ -339,6 +362,7 @@ __CPROVER_ensures(self->capacity_ == __CPROVER_old(self->capacity_) && self->dat
 void fv_push_back_range(struct fixed_vector *self, const elem *start, const elem *end)
 __CPROVER_requires(nitro_exc == 0 && __CPROVER_is_fresh(self, sizeof(*self)) && FV_PRE_LIVE(self))
 __CPROVER_requires(FV_RANGE_PRE(fv_push_back_range, start, end))
+__CPROVER_requires(FV_REC(fv_push_back_range, self->size_, self->capacity_, self->size_, FV_N(start, end)))
 __CPROVER_assigns(nitro_exc, self->size_, __CPROVER_object_whole(self->data_))
 __CPROVER_ensures((FV_N(start, end) > self->capacity_ - __CPROVER_old(self->size_)) ==> nitro_exc != 0)   /*@ range_that_does_not_fit_raises */
 __CPROVER_ensures(nitro_exc == EXC_NITRO ==> FV_N(start, end) > self->capacity_ - __CPROVER_old(self->size_))
@@ -351,6 +375,7 @@ __CPROVER_ensures(self->capacity_ == __CPROVER_old(self->capacity_) && self->dat
 /* C06: pop when empty raises; C07: pop removes the last */
 void fv_pop_back(struct fixed_vector *self)
 __CPROVER_requires(nitro_exc == 0 && __CPROVER_is_fresh(self, sizeof(*self)) && FV_PRE_ANY(self))
+__CPROVER_requires(FV_REC(fv_pop_back, self->size_, self->capacity_, 0, 0))
 __CPROVER_assigns(nitro_exc, self->size_)
 __CPROVER_ensures((__CPROVER_old(self->size_) == 0) == (nitro_exc != 0))                   /*@ pop_when_empty_raises */
 __CPROVER_ensures(nitro_exc == 0 || nitro_exc == EXC_NITRO)
@@ -360,6 +385,7 @@ __CPROVER_ensures(nitro_exc == 0 ==> self->size_ == __CPROVER_old(self->size_) -
 /* C06: erase at an index not below size raises; C07: erase removes one element, keeps the order of the rest */
 void fv_erase(struct fixed_vector *self, elem *pos)
 __CPROVER_requires(nitro_exc == 0 && __CPROVER_is_fresh(self, sizeof(*self)) && FV_PRE_LIVE(self) && FV_POS(fv_erase, self, pos))
+__CPROVER_requires(FV_REC(fv_erase, self->size_, self->capacity_, FV_K(self, pos), 0))
 __CPROVER_assigns(nitro_exc, self->size_, __CPROVER_object_whole(self->data_))
 __CPROVER_ensures((FV_K(self, pos) >= __CPROVER_old(self->size_)) == (nitro_exc == EXC_NITRO))         /*@ erase_at_index_not_below_size_raises */
 __CPROVER_ensures(nitro_exc == 0 || nitro_exc == EXC_NITRO || nitro_exc == EXC_ELEM)
